@@ -15,8 +15,11 @@ Record js_variant := {
   jv_escape_vtab : bool;     (* jsonEscape writes "\v", which jsmn_parse_string rejects *)
   jv_key_overread : bool;    (* fromJSON: no end-of-tokens test after a key: the sentinel is consumed
                                 as the value and the next read is behind the token array *)
-  jv_container_key : bool;   (* fromJSON: an object/array where a key is expected is accepted; the data
-                                stack and the token stack get out of step and the data stack underflows *)
+  jv_container_key : bool;   (* fromJSON: the two stacks are used unguarded.  An object/array where a key is
+                                expected is accepted in either variant (lenient texts depend on it) and
+                                brings the data stack and the token stack out of step; on: back()/pop_back()
+                                on an empty stack (undefined behaviour); off (repaired): every such access
+                                is preceded by an emptiness test that throws "unbalanced structure" *)
   jv_null_atom : bool;       (* fromJSON: the primitive `null` (which toJSON writes for the empty value)
                                 becomes the atom "null" *)
   jv_event_data_self : bool  (* Event::operator Data(): `data["data"] = data` copies the local
@@ -226,7 +229,7 @@ Definition data_to_json (v : js_variant) (d : data) : bytes := to_json v 1 d.
 
 Inductive outcome (A : Type) :=
 | Ok (a : A)
-| Err (e : N)          (* an ErrorEvent is thrown: 1 NOMEM, 2 INVAL, 3 PART, 4 bad key (repaired code) *)
+| Err (e : N)          (* an ErrorEvent is thrown: 1 NOMEM, 2 INVAL, 3 PART, 4 unbalanced structure (repaired code) *)
 | Oob (what : N)       (* undefined behaviour: 1 token array read behind its end, 2 dataStack.back()/
                           pop_back() on the empty list, 3 tokenStack.back() on the empty list,
                           4 token array written outside its allocated part (jsmn) *)
@@ -313,17 +316,23 @@ Variable t : list token.        (* the token array: nrTokens + 1 entries, zero-f
 
 Definition tok_at (i : nat) : option token := nth_error t i.
 
-(* while (t[currTok].end > tokenStack.back().end) { tokenStack.pop_back(); dataStack.pop_back(); }
+Definition ds_is_empty (s : dstack) : bool := match s with DS _ _ => false | DSEmpty _ => true end.
+
+(* pinned:   while (t[currTok].end > tokenStack.back().end) { tokenStack.pop_back(); dataStack.pop_back(); }
+   repaired: while (!tokenStack.empty() && t[currTok].end > tokenStack.back().end) {
+               tokenStack.pop_back(); if (!dataStack.empty()) dataStack.pop_back(); }
+             if (tokenStack.empty() || dataStack.empty()) throw
    tokenStack is a list with back() first. *)
 Fixpoint pop_loop (e : Z) (ts : list token) (ds : dstack) : outcome (list token * dstack) :=
   match ts with
-  | [] => Oob 3
+  | [] => if jv_container_key v then Oob 3 else Err 4
   | top :: ts' =>
     if (tend top <? e)%Z then
       match ds_pop ds with
       | Some ds' => pop_loop e ts' ds'
-      | None => Oob 2
+      | None => if jv_container_key v then Oob 2 else pop_loop e ts' ds
       end
+    else if negb (jv_container_key v) && ds_is_empty ds then Err 4
     else Ok (ts, ds)
   end.
 
@@ -362,7 +371,6 @@ Definition bkey (back tk1 : token) (cur1 : nat) (ds2 : dstack) : outcome (bool *
         | Some tk2 => Ok ((tend tk2 =? 0)%Z, S cur1, ds3)
         end
     end
-  else if (ttype back =? T_OBJECT) && negb (jv_container_key v) then Err 4   (* repaired: thrown *)
   else Ok (false, cur1, ds2).
 
 (* the rest of the loop body after the switch; [rec] is the next iteration *)
@@ -405,6 +413,9 @@ Fixpoint build (fuel : nat) (cur : nat) (ds : dstack) (ts : list token) : outcom
   match fuel with
   | O => OutOfFuel
   | S fuel' =>
+    (* repaired: if (dataStack.empty()) throw "unbalanced structure" *)
+    if negb (jv_container_key v) && ds_is_empty ds then Err 4
+    else
     match tok_at cur with
     | None => Oob 1
     | Some tk =>
